@@ -227,6 +227,14 @@ type Op struct {
 	TF     string
 	Order  []string
 	Answer *string
+	// extended operations (heapext.go)
+	Pred  string
+	PKind at.Type
+	Mapf  string
+	Agg   string
+	Src   []*NSrc
+	SrcKV []NKV
+	Typed bool
 }
 
 func coqZs(zs []int64) string {
@@ -252,6 +260,13 @@ func coqKeys(ks []string) string {
 }
 
 func (o *Op) coq() string {
+	if isXOp(o.Name) {
+		return o.xcoq()
+	}
+	return "(Base " + o.coqBase() + ")"
+}
+
+func (o *Op) coqBase() string {
 	switch o.Name {
 	case "NewList":
 		return "(NewList " + coqOperands(o.Vals) + ")"
@@ -304,6 +319,9 @@ func (o *Op) coq() string {
 }
 
 func (o *Op) String() string {
+	if isXOp(o.Name) {
+		return o.xString()
+	}
 	var b strings.Builder
 	fmt.Fprintf(&b, "%s", o.Name)
 	switch o.Name {
@@ -405,6 +423,7 @@ func (m *Machine) exec(o *Op) (outcome string) {
 	var result any
 	hasResult := false
 	out := "ONone"
+	xout := ""
 	panicked := try(func() {
 		fluentL := func(l at.List, ret at.List) {
 			if ret != l {
@@ -636,11 +655,14 @@ func (m *Machine) exec(o *Op) (outcome string) {
 				out = "(OKind " + kindCoq(c.TypeOfTF(o.TF)) + ")"
 			}
 		default:
-			panic("exec: unknown op " + o.Name)
+			xout, result, hasResult = m.execX(o)
 		}
 	})
 	if panicked {
 		return "Pan"
+	}
+	if xout != "" {
+		return "(XRet " + xout + ")"
 	}
 	if hasResult {
 		out = outHval(result)
@@ -677,6 +699,7 @@ type Prog struct {
 	nontrv  bool
 	finding string
 	broken  bool
+	scalars []*V // nil: heapScalars
 }
 
 func (p *Prog) listRegs() []int {
@@ -716,7 +739,7 @@ func (p *Prog) do(o *Op) string {
 		h = 0
 	}
 	p.ops = append(p.ops, o)
-	p.trace = append(p.trace, fmt.Sprintf("(%s, %d)", oc, h))
+	p.trace = append(p.trace, fmt.Sprintf("(%s, %d)", xOutcome(oc), h))
 	p.lines = append(p.lines, fmt.Sprintf("%s => %s | %s", o.String(), oc, txt.String()))
 	p.tags[o.Name] = true
 	// generic predicates on the implementation
@@ -732,6 +755,17 @@ func (p *Prog) do(o *Op) string {
 	return oc
 }
 
+// the trace is emitted in the outcome type of HeapExt.v
+func xOutcome(oc string) string {
+	if oc == "Pan" {
+		return "XPan"
+	}
+	if strings.HasPrefix(oc, "(Ret ") {
+		return "(XRet (XO " + oc[5:len(oc)-1] + "))"
+	}
+	return oc
+}
+
 func singleIndexOp(o *Op) bool {
 	switch o.Name {
 	case "LInsert", "LReplace", "LPop", "LGet", "LGetTyped", "LSubList", "OGet", "OGetTyped", "OPluck", "LSort":
@@ -743,6 +777,9 @@ func singleIndexOp(o *Op) bool {
 }
 
 func pureOp(o *Op) bool {
+	if isXOp(o.Name) {
+		return true
+	}
 	switch o.Name {
 	case "LSubList", "LConcat", "LCount", "LEmpty", "LGet", "LGetTyped", "LTypeOf", "LSlice", "LContains", "LIndexOf",
 		"OMerge", "OPluck", "OGet", "OGetTyped", "OTypeOf", "OKeyExists", "OCount", "OEmpty", "OKeys", "OValues", "ODict", "OContains", "OKeyOf",
@@ -754,7 +791,12 @@ func pureOp(o *Op) bool {
 
 var heapScalars = []*V{vnil(), vbool(true), vbool(false), vint(0), vint(1), vint(-7), vint(42), vfloat(1.5), vfloat(0), vfloat(math.Copysign(0, -1)), vfloat(1), vstr(""), vstr("a"), vstr("b"), vstr("xyz"), vint(math.MaxInt64), vfloat(math.NaN())}
 
-func (p *Prog) scalar() Operand { return Operand{V: pickOf(p.r, heapScalars)} }
+func (p *Prog) scalar() Operand {
+	if p.scalars != nil {
+		return Operand{V: pickOf(p.r, p.scalars)}
+	}
+	return Operand{V: pickOf(p.r, heapScalars)}
+}
 
 // value operand that may be stored into container `into` without creating a cycle
 func (p *Prog) value(into int) Operand {
@@ -815,12 +857,20 @@ func (p *Prog) key(ob at.Object) string {
 			all = append(all, ks.GetString(i))
 		}
 		sort.Strings(all)
-		return pickOf(p.r, all)
+		if len(all) > 0 { // (Count() > 0 with an empty Keys() is an inconsistency of the implementation; the step predicates report it)
+			return pickOf(p.r, all)
+		}
 	}
 	return pickOf(p.r, heapKeys)
 }
 
 func (p *Prog) newContainer() {
+	// NewListFrom / NewObjectFrom (C05 and C06 name them among the constructors): nested []any / map[string]any sources whose
+	// leaves are scalars or live containers, and the typed flavours
+	if (p.prof == "C05" || p.prof == "C06" || p.prof == "C09") && p.r.chance(0.12) {
+		p.xNewFrom(p.prof == "C05" || (p.prof == "C09" && p.r.chance(0.5)))
+		return
+	}
 	if p.r.chance(0.15) {
 		// NewListOf: one value repeated (the same scalar wrapper / the same container in every slot); count -1 panics
 		cnt := int64(p.r.Intn(5))
@@ -1257,6 +1307,16 @@ func (p *Prog) wellFormedPath(x any, maxSeg int) string {
 
 func heapProgram(r *R, prof string) *Prog {
 	p := &Prog{m: &Machine{pred: true}, r: r, prof: prof, tags: map[string]bool{}}
+	// the public API may panic while the generator itself reads the containers (Keys, Count, Get ...) on a broken tree:
+	// that is a failure of the program generated so far, not of the harness
+	if tryLib(func() { heapProgramBody(p, r, prof) }) {
+		p.m.fail("the public API panicked while the containers of this program were being read back (Keys/Count/Get/Dict)")
+	}
+	return p
+}
+
+func heapProgramBody(p *Prog, r *R, prof string) {
+
 	switch prof {
 	case "C05":
 		nops := 8 + r.Intn(28)
@@ -1541,7 +1601,7 @@ func heapProgram(r *R, prof string) *Prog {
 	}
 	distinctOps := len(p.tags)
 	p.nontrv = len(p.ops) >= 5 && distinctOps >= 3
-	return p
+
 }
 
 func getTFAny(root any, tf string) any {
@@ -1717,6 +1777,31 @@ func (p *Prog) viewsOwnStorage() {
 	}
 }
 
+func emitProg(p *Prog, out *Out, chk string) {
+	ops := make([]string, len(p.ops))
+	for j, o := range p.ops {
+		ops[j] = o.coq()
+	}
+	var tags []string
+	for t := range p.tags {
+		tags = append(tags, t)
+	}
+	sort.Strings(tags)
+	c := &Case{
+		Coq:        fmt.Sprintf("(%s, %s)", coqList(ops), coqList(p.trace)),
+		Desc:       map[string]any{"program": p.lines},
+		Pred:       p.m.pred, PredMsg: p.m.predMsg,
+		Nontrivial: p.nontrv,
+		Key:        strings.Join(p.lines, "\n"),
+		Tags:       append(tags, fmt.Sprintf("len=%d", len(p.ops)/5*5)),
+		Chk:        chk,
+	}
+	if p.finding != "" {
+		c.Extra = map[string]any{"finding": p.finding}
+	}
+	out.emit(c)
+}
+
 func genHeap(prof string) genFunc {
 	return func(r *R, n int, tier string, out *Out) {
 		for i := 0; i < n; i++ {
@@ -1727,27 +1812,7 @@ func genHeap(prof string) genFunc {
 			if prof == "C09" && !p.broken {
 				p.viewsOwnStorage()
 			}
-			ops := make([]string, len(p.ops))
-			for j, o := range p.ops {
-				ops[j] = o.coq()
-			}
-			var tags []string
-			for t := range p.tags {
-				tags = append(tags, t)
-			}
-			sort.Strings(tags)
-			c := &Case{
-				Coq:        fmt.Sprintf("(%s, %s)", coqList(ops), coqList(p.trace)),
-				Desc:       map[string]any{"program": p.lines},
-				Pred:       p.m.pred, PredMsg: p.m.predMsg,
-				Nontrivial: p.nontrv,
-				Key:        strings.Join(p.lines, "\n"),
-				Tags:       append(tags, fmt.Sprintf("len=%d", len(p.ops)/5*5)),
-			}
-			if p.finding != "" {
-				c.Extra = map[string]any{"finding": p.finding}
-			}
-			out.emit(c)
+			emitProg(p, out, "")
 		}
 	}
 }
